@@ -48,12 +48,15 @@ def run(ctx: Ctx):
               ' unsharded source with the same configuration (R-C09-2); the'
               ' recorded position counts exactly the elements consumed'
               ' (R-C09-4); a range started at a restored position reads'
-              ' [i, stop) without skipping or repeating (R-C09-6, R-C12-4)',
+              ' [i, stop) without skipping or repeating (R-C09-6, R-C12-4); a'
+              ' restored source that is sharded again keeps its position'
+              ' (R-C09-10)',
               _shared, min_instances=12)
 
 
 def _shared(sub):
   from mlmverif.props import c09, c12
+  sub.guard(c09.r10)
   sub.guard(c09.r2)
   sub.guard(c09.r4)
   sub.guard(c09.r6)
